@@ -12,6 +12,11 @@
  *           one case per (selector, size, path, n-range)
  *   TAPE    QUICK_R: every array (A = 3) x every tape of the first 3 rand() draws
  *   RANDOM  seeded random arrays / selectors / sizes / tapes
+ *   SREF    self-referential small-buffer elements (comparison reads through a pointer stored inside the
+ *           element, the caller's swap keeps it consistent): exhaustive small arrays + patterns
+ * Search/find probes live in a separate object, in the searched array itself (every index in the small scopes),
+ * in a different array with equal contents, in the caller's scratch element and one past the end of the searched
+ * range (raw-array API only); see "where the probe lives".
  *
  * rand() is DEFINED here (overrides libc's): the first draws come from a tape
  * the generator controls, later ones from a fair private PRNG, so a tape can
@@ -64,6 +69,9 @@ static long sweep_value(uint32_t i)
 static const int SIZES[NSIZES] = { 1, 2, 4, 8, 3, 5, 16, 24 };
 enum { P_ARRAY, P_VECTOR };
 static const char *const pathname[2] = { "array", "vector" };
+/* the same entry points driven with self-referential small-buffer elements (see the section further down) */
+static const char *const sref_pathname[2] = { "array-selfref", "vector-selfref" };
+static int sref_mode;
 
 static int sel_ctr[NSEL], size_ctr[NSIZES], pat_ctr[16];
 
@@ -151,10 +159,10 @@ static inline int where(const void *p)
     return -1;
 }
 
-static int cmp_rec(const void *a, const void *b, void *priv)
+/* every comparison, whatever the element type: budget, priv, both arguments confined */
+static inline void cmp_args(const void *a, const void *b, void *priv)
 {
     int wa, wb;
-    uint32_t ka, kb;
     if (++X.ncmp > X.budget)
         vrt_fail(Kop("budget-exceeded"), "%s of n=%zu did not finish within %llu comparisons (64*n*n+1024)",
                  X.op, X.n, (unsigned long long)X.budget);
@@ -165,6 +173,11 @@ static int cmp_rec(const void *a, const void *b, void *priv)
                  "comparison #%llu called with (%+ld, %+ld) bytes relative to the array of %zu x %zu bytes "
                  "(neither scratch nor probe)", (unsigned long long)X.ncmp,
                  (long)((const unsigned char *)a - X.arr), (long)((const unsigned char *)b - X.arr), X.n, X.size);
+}
+static int cmp_rec(const void *a, const void *b, void *priv)
+{
+    uint32_t ka, kb;
+    cmp_args(a, b, priv);
     ka = get_key(a, X.kb); kb = get_key(b, X.kb);
     if (X.style) return ka < kb ? INT_MIN : ka > kb ? INT_MAX : 0;
     return (ka > kb) - (ka < kb);
@@ -253,8 +266,13 @@ struct bench {
     uint32_t *perm;             /* n + 1 entries */
     unsigned char *block;       /* raw path: the block arr points into */
     unsigned char *arr, *scratch, *probe;
+    unsigned char *twin;        /* a different exact-size array that is given equal contents (probes living there); n <= TWIN_MAX */
+    const unsigned char *ref;   /* the harness's own copy of the current array content (oracle of the located probes) ... */
+    int refmirror;              /* ... read back to front (after a verified reverse) */
+    const uint32_t *refkeys;    /* self-referential elements: the copy is a plain key table instead */
     struct cstl_vector v;
 };
+#define TWIN_MAX 4096
 static int32_t hist[65536];
 
 static void bench_open(struct bench *b, size_t n, int size, int path, size_t capextra)
@@ -266,6 +284,7 @@ static void bench_open(struct bench *b, size_t n, int size, int path, size_t cap
     b->seen = vrt_alloc(n);
     b->perm = vrt_alloc((n + 1) * sizeof(*b->perm));
     b->probe = vrt_alloc(size);
+    if (n >= 1 && n <= TWIN_MAX) b->twin = vrt_alloc(n * size);
     if (path == P_ARRAY) {
         if (n > 0) { b->block = vrt_alloc(n * size); b->arr = b->block; }
         else { b->block = vrt_alloc(size); b->arr = b->block + size; }  /* element 0 would be the red zone */
@@ -295,6 +314,7 @@ static void bench_open(struct bench *b, size_t n, int size, int path, size_t cap
 static void bench_close(struct bench *b)
 {
     vrt_free(b->in); vrt_free(b->save); vrt_free(b->seen); vrt_free(b->perm); vrt_free(b->probe);
+    if (b->twin) vrt_free(b->twin);
     if (b->path == P_ARRAY) { vrt_free(b->block); vrt_free(b->scratch); }
     else {
         VRT_OP0("vector.clear", "");
@@ -320,7 +340,7 @@ static void set_ctx(const struct bench *b, const char *op, const char *state, co
     X.ncmp = X.nswap = 0;
     X.budget = 64ull * b->n * b->n + 1024;
     X.kb = keybytes(b->size);
-    X.op = op; X.path = pathname[b->path]; X.state = state;
+    X.op = op; X.path = sref_mode ? sref_pathname[b->path] : pathname[b->path]; X.state = state;
     X.perm = b->perm;
     vrt_state(state);
 }
@@ -344,30 +364,36 @@ static void check_slack(const struct bench *b, const char *op)
         }
 }
 
-static ssize_t do_find(struct bench *b, uint32_t stored)
+/* the comparison function of the current element type (records or self-referential elements) */
+static cstl_compare_func_t *cur_cmp = cmp_rec;
+
+/* cnt != b->n (a prefix of the caller's array) only with the raw-array API */
+static ssize_t do_find_at(struct bench *b, size_t cnt, const unsigned char *probe, uint32_t stored, int loc, size_t at)
 {
     ssize_t r;
     if (b->path == P_ARRAY) {
-        VRT_OP2("array.find", "n=%ld probe-key=%ld", b->n, stored);
-        r = cstl_raw_array_find(b->arr, b->n, b->size, b->probe, cmp_rec, &X);
+        VRT_OP4("array.find", "n=%ld probe-key=%ld probe-location=%ld (0 separate, 1 element of the array, 2 element of an equal array, 3 scratch, 4 one past the end) at index %ld", cnt, stored, loc, at);
+        r = cstl_raw_array_find(b->arr, cnt, b->size, probe, cur_cmp, &X);
     } else {
-        VRT_OP2("vector.find", "n=%ld probe-key=%ld", b->n, stored);
-        r = cstl_vector_find(&b->v, b->probe, cmp_rec, &X);
+        VRT_OP4("vector.find", "n=%ld probe-key=%ld probe-location=%ld (0 separate, 1 element of the array, 2 element of an equal array, 3 scratch, 4 one past the end) at index %ld", cnt, stored, loc, at);
+        r = cstl_vector_find(&b->v, probe, cur_cmp, &X);
     }
     return r;
 }
-static ssize_t do_search(struct bench *b, uint32_t stored)
+static ssize_t do_search_at(struct bench *b, size_t cnt, const unsigned char *probe, uint32_t stored, int loc, size_t at)
 {
     ssize_t r;
     if (b->path == P_ARRAY) {
-        VRT_OP2("array.search", "n=%ld probe-key=%ld", b->n, stored);
-        r = cstl_raw_array_search(b->arr, b->n, b->size, b->probe, cmp_rec, &X);
+        VRT_OP4("array.search", "n=%ld probe-key=%ld probe-location=%ld (0 separate, 1 element of the array, 2 element of an equal array, 3 scratch, 4 one past the end) at index %ld", cnt, stored, loc, at);
+        r = cstl_raw_array_search(b->arr, cnt, b->size, probe, cur_cmp, &X);
     } else {
-        VRT_OP2("vector.search", "n=%ld probe-key=%ld", b->n, stored);
-        r = cstl_vector_search(&b->v, b->probe, cmp_rec, &X);
+        VRT_OP4("vector.search", "n=%ld probe-key=%ld probe-location=%ld (0 separate, 1 element of the array, 2 element of an equal array, 3 scratch, 4 one past the end) at index %ld", cnt, stored, loc, at);
+        r = cstl_vector_search(&b->v, probe, cur_cmp, &X);
     }
     return r;
 }
+static ssize_t do_find(struct bench *b, uint32_t stored) { return do_find_at(b, b->n, b->probe, stored, 0, 0); }
+static ssize_t do_search(struct bench *b, uint32_t stored) { return do_search_at(b, b->n, b->probe, stored, 0, 0); }
 
 /* find probe against the current array content; expected = first index by linear scan */
 static void probe_find(struct bench *b, uint32_t stored, const char *what)
@@ -431,6 +457,126 @@ static void probe_search(struct bench *b, uint32_t stored)
     }
 }
 
+/* ------------------------------------------------------------------ */
+/* where the probe lives                                                */
+/* ------------------------------------------------------------------ */
+/*
+ * The "element to be found" is any object of the caller's: a separate one (the probes above), an element of the
+ * searched array itself (index i: with equal elements below i, find must still answer the FIRST index and search may
+ * answer any equal one), an element of a different array with equal contents, the caller's scratch element (raw-array
+ * API; the vector's scratch slot and capacity slack are not the caller's), or the element one past the end of the
+ * searched range inside a longer array the caller owns (raw-array API: the first n-1 elements are searched for
+ * element n-1).  The expectation is the same linear scan as always, over the harness's own copy of the keys (b->ref /
+ * b->refkeys), never over the memory the library was handed.
+ */
+enum { PL_SEPARATE, PL_ELEM, PL_TWIN, PL_SCRATCH, PL_PAST, NPL };
+static const char *const plname[NPL] = { "separate-probe", "probe-in-array", "probe-in-equal-array", "probe-in-scratch", "probe-one-past-end" };
+static int pl_ctr[NPL][2], pl_absent_ctr[NPL][2], pl_lower_ctr, pl_other_ctr, pl_sref_ctr;
+static void (*cur_put)(unsigned char *e, int size, uint32_t stored, uint32_t tag) = put_rec;
+static void (*cur_fix)(unsigned char *e);       /* makes a byte copy of an element a valid element at its new address */
+
+static inline uint32_t refkey(const struct bench *b, size_t i)
+{
+    if (b->refmirror) i = b->n - 1 - i;
+    return b->refkeys ? b->refkeys[i] : get_key(b->ref + i * b->size, keybytes(b->size));
+}
+static const char *Kpl(const char *op, const char *oracle, int pl)
+{
+    static char o[96];
+    snprintf(o, sizeof(o), "%s.%s.%s", op, oracle, plname[pl]);
+    return K(o);
+}
+static void twin_sync(struct bench *b)
+{
+    size_t i;
+    memcpy(b->twin, b->arr, b->n * (size_t)b->size);
+    if (cur_fix) for (i = 0; i < b->n; i++) cur_fix(b->twin + i * b->size);
+}
+
+/* one find (searching = 0) or binary search (1) for the key of element i (absent: the odd value above it) with the
+ * probe living at pl */
+static void probe_at(struct bench *b, int pl, size_t i, int absent, int searching)
+{
+    const size_t size = b->size;
+    size_t cnt = b->n, j;
+    const unsigned char *probe;
+    const char *op = searching ? "search" : "find";
+    uint32_t key;
+    ssize_t exp = -1, r;
+
+    if (pl == PL_PAST) { cnt = b->n - 1; i = cnt; }
+    key = refkey(b, i) + (absent ? 1u : 0u);            /* stored keys are even: the odd ones are absent */
+    switch (pl) {
+    case PL_ELEM: case PL_PAST: probe = b->arr + i * size; break;
+    case PL_TWIN: probe = b->twin + i * size; break;
+    case PL_SCRATCH: cur_put(b->scratch, b->size, key, 0xfffffffeu); probe = b->scratch; break;
+    default: cur_put(b->probe, b->size, key, 0xffffffffu); probe = b->probe; break;
+    }
+    for (j = 0; j < cnt; j++) if (refkey(b, j) == key) { exp = (ssize_t)j; break; }
+    set_ctx(b, op, nclass(cnt), probe);
+    X.n = cnt; X.bytes = cnt * size;
+    r = searching ? do_search_at(b, cnt, probe, key, pl, i) : do_find_at(b, cnt, probe, key, pl, i);
+    if (exp < 0) {
+        VRT_CHECK(r == -1, Kpl(op, "false-positive", pl), "%s of absent key %u (%s, index %zu) in n=%zu returned %zd, expected -1",
+                  op, key, plname[pl], i, cnt, r);
+        vrt_ctr[pl_absent_ctr[pl][searching]]++;
+    } else {
+        VRT_CHECK(r != -1, Kpl(op, "false-negative", pl), "%s of key %u (%s, index %zu) present at index %zd returned -1 (n=%zu)",
+                  op, key, plname[pl], i, exp, cnt);
+        VRT_CHECK(r >= 0 && (size_t)r < cnt, Kpl(op, "index-out-of-range", pl), "%s (%s, index %zu) returned %zd for n=%zu",
+                  op, plname[pl], i, r, cnt);
+        VRT_CHECK(refkey(b, (size_t)r) == key, Kpl(op, "wrong-element", pl), "%s of key %u (%s, index %zu) returned index %zd whose key is %u",
+                  op, key, plname[pl], i, r, refkey(b, (size_t)r));
+        if (!searching)
+            VRT_CHECK(r == exp, Kpl(op, "not-first", pl), "find of key %u (%s, index %zu) returned index %zd, the first match is %zd (n=%zu)",
+                      key, plname[pl], i, r, exp, cnt);
+        vrt_ctr[pl_ctr[pl][searching]]++;
+        if (pl == PL_ELEM && !searching && (size_t)exp != i) vrt_ctr[pl_lower_ctr]++;
+        if (pl == PL_ELEM && searching && (size_t)r != i) vrt_ctr[pl_other_ctr]++;
+    }
+    if (sref_mode) vrt_ctr[pl_sref_ctr]++;
+}
+
+/* level of effort */
+#define F_LOC_ONE    16     /* one element of the array (sorted output only, every other array) */
+#define F_LOC_FEW    32     /* one element of the array + sometimes one of the other homes, rotating */
+#define F_LOC_EVERY  64     /* every element of the array + every other home */
+#define F_LOC_LARGE  128    /* ends, middle, two arbitrary elements + every other home */
+static void located_probes(struct bench *b, int sorted, int flags, uint64_t code)
+{
+    const size_t n = b->n;
+    const uint64_t h0 = vrt_mix(0x10CA7ED, code), h = vrt_mix(h0, 2 * n + (size_t)sorted);
+    size_t idx[5], i;
+    int nidx = 0, k, s, homes = 0;
+    if (n == 0 || !(flags & (F_LOC_ONE | F_LOC_FEW | F_LOC_EVERY | F_LOC_LARGE))) return;
+    if (flags & F_LOC_EVERY) {
+        for (i = 0; i < n; i++) for (s = 0; s <= sorted; s++) probe_at(b, PL_ELEM, i, 0, s);
+        homes = 7;
+    } else if (flags & F_LOC_LARGE) {
+        idx[nidx++] = (h >> 8) % n; idx[nidx++] = n - 1;
+        if (n <= 100000) { idx[nidx++] = 0; idx[nidx++] = n / 2; idx[nidx++] = (h >> 28) % n; }
+        homes = 7;
+    } else if (flags & F_LOC_FEW) {
+        /* one element of the array in each phase, one other home in one of the two phases */
+        idx[nidx++] = (h >> 8) % n;
+        homes = (int)((h0 >> 40) & 1) == sorted ? 1 << (h0 >> 48) % 3 : 0;
+    } else {
+        if (!sorted || (h0 & 1)) return;
+        idx[nidx++] = (h >> 8) % n;
+    }
+    for (k = 0; k < nidx; k++) for (s = 0; s <= sorted; s++) probe_at(b, PL_ELEM, idx[k], 0, s);
+    i = (h >> 18) % n;
+    if ((homes & 1) && b->twin) {
+        twin_sync(b);
+        for (s = 0; s <= sorted; s++) { probe_at(b, PL_TWIN, i, 0, s); if (homes == 7 && n > 1) probe_at(b, PL_TWIN, n - 1 - i, 0, s); }
+    }
+    if (b->path != P_ARRAY) return;         /* the vector API documents no storage of the caller's next to the elements */
+    if (homes & 2)
+        for (s = 0; s <= sorted; s++) { probe_at(b, PL_SCRATCH, i, 0, s); if (homes == 7) probe_at(b, PL_SCRATCH, n - 1 - i, 1, s); }
+    if (homes & 4)
+        for (s = 0; s <= sorted; s++) probe_at(b, PL_PAST, 0, 0, s);
+}
+
 static void cmp_evidence(size_t n, uint64_t ncmp)
 {
     static int idc[16], idb[16], init;
@@ -484,6 +630,8 @@ static void run_array(struct bench *b, int selidx, const uint32_t *probes, int n
 
     if (flags & F_PREFIND) {
         for (p = 0; p < nprobes; p++) probe_find(b, probes[p], "unsorted");
+        b->ref = b->in; b->refmirror = 0;
+        located_probes(b, 0, flags, keycode);
         VRT_CHECK(bytes == 0 || memcmp(b->arr, b->in, bytes) == 0, K("find.array-modified"), "find modified the array (n=%zu)", n);
     }
 
@@ -575,6 +723,8 @@ static void run_array(struct bench *b, int selidx, const uint32_t *probes, int n
             probe_search(b, probes[p]);
             probe_find(b, probes[p], "sorted");
         }
+        b->ref = b->save; b->refmirror = 0;
+        located_probes(b, 1, flags, keycode ^ tapecode << 32);
         VRT_CHECK(bytes == 0 || memcmp(b->arr, b->save, bytes) == 0, K("search.array-modified"), "search/find modified the array (n=%zu)", n);
     }
 
@@ -614,14 +764,244 @@ static void run_array(struct bench *b, int selidx, const uint32_t *probes, int n
         if (nprobes > 0) {
             probe_find(b, probes[(keycode + n) % nprobes], "reversed");
             VRT_COUNT("find.on-descending");
+            const uint64_t hh = vrt_mix(keycode, n);
+            if (n > 0 && ((flags & (F_LOC_EVERY | F_LOC_LARGE)) || ((flags & F_LOC_FEW) && (hh >> 40) % 4 == 0))) {
+                b->ref = b->save; b->refmirror = 1;     /* the mirror was verified above */
+                probe_at(b, PL_ELEM, (size_t)(hh % n), 0, 0);
+                b->refmirror = 0;
+                VRT_COUNT("find.on-descending.probe-in-array");
+            }
         }
     }
 }
 
 /* ------------------------------------------------------------------ */
+/* self-referential small-buffer elements                               */
+/* ------------------------------------------------------------------ */
+/*
+ * An element carries a pointer to its key.  Short keys live in a buffer INSIDE the element and the pointer addresses
+ * that buffer (small-buffer optimisation); the others live in a table of the caller's.  Such an element is valid only
+ * at its own address: the caller's swap function moves the bytes and re-points the pointer of both elements (and of
+ * the scratch element).  The comparison function reads the key through the pointer only, so whoever compares a
+ * private byte copy of an element (a pivot saved in a local buffer, in the scratch element, anywhere) reads the
+ * buffer of the slot the copy was taken FROM, whatever lives there by now; the monitor sees it directly because the
+ * copy's pointer does not address the copy's own buffer (cmp.arg-not-an-element-in-place).
+ * Two layouts: pointer first (16 bytes) and pointer in the middle (24 bytes).
+ */
+static const struct slay { int size, kp, tag, ext, buf, fill; } SLAY[2] = { { 16, 0, 8, 12, 13, -1 }, { 24, 8, 0, 4, 5, 16 } };
+static const struct slay *SL = &SLAY[0];
+static unsigned char *extkeys;      /* 2 bytes per slot: n element slots + 2 probe slots */
+static size_t extkeys_n;
+
+static void sref_fix(unsigned char *e)
+{
+    if (!e[SL->ext]) { unsigned char *p = e + SL->buf; memcpy(e + SL->kp, &p, sizeof(p)); }
+}
+static void sref_put(unsigned char *e, uint32_t key, uint32_t tag, int ext, size_t slot_)
+{
+    unsigned char *p;
+    memset(e, 0, SL->size);
+    memcpy(e + SL->tag, &tag, 4);
+    e[SL->ext] = (unsigned char)ext;
+    e[SL->buf + 2] = (unsigned char)(tag * 13u + 7u);
+    if (ext) {
+        p = extkeys + 2 * slot_;
+        p[0] = (unsigned char)key; p[1] = (unsigned char)(key >> 8);
+        e[SL->buf] = e[SL->buf + 1] = 0xdd;
+    } else {
+        p = e + SL->buf;
+        p[0] = (unsigned char)key; p[1] = (unsigned char)(key >> 8);
+    }
+    memcpy(e + SL->kp, &p, sizeof(p));
+    if (SL->fill >= 0) { uint64_t f = vrt_mix(0x5EF, tag); memcpy(e + SL->fill, &f, 8); }
+}
+/* probes (cur_put): the separate probe alternates between inline and external key */
+static void sref_put_probe(unsigned char *e, int size, uint32_t key, uint32_t tag)
+{
+    (void)size;
+    sref_put(e, key, tag, tag == 0xffffffffu && (key & 4) != 0, extkeys_n - 1 - (tag & 1));
+}
+/* is the object at e a valid element where it is?  (where() has confined e already) */
+static inline int sref_valid(const unsigned char *e)
+{
+    const unsigned char *p;
+    memcpy(&p, e + SL->kp, sizeof(p));
+    if (e[SL->ext] == 0) return p == e + SL->buf;
+    return e[SL->ext] == 1 && p >= extkeys && p < extkeys + 2 * extkeys_n && ((size_t)(p - extkeys) & 1) == 0;
+}
+static inline uint32_t sref_key(const void *v, int argno)
+{
+    const unsigned char *e = v, *p;
+    if (!sref_valid(e))
+        vrt_fail(Kop("cmp.arg-not-an-element-in-place"), "comparison #%llu: argument %d (%+ld bytes relative to the array) is not a valid "
+                 "element at that address: its key pointer does not address its own buffer, i.e. it is a byte copy of an "
+                 "element made without the caller's swap function", (unsigned long long)X.ncmp, argno,
+                 (long)(e - X.arr));
+    memcpy(&p, e + SL->kp, sizeof(p));
+    return (uint32_t)p[0] | (uint32_t)p[1] << 8;
+}
+static int cmp_sref(const void *a, const void *b, void *priv)
+{
+    uint32_t ka, kb;
+    cmp_args(a, b, priv);
+    ka = sref_key(a, 1); kb = sref_key(b, 2);
+    if (X.style) return ka < kb ? INT_MIN : ka > kb ? INT_MAX : 0;
+    return (ka > kb) - (ka < kb);
+}
+static void swap_sref(void *a, void *b, void *t, size_t len)
+{
+    swap_rec(a, b, t, len);         /* validates, follows the exchange in the shadow, moves the bytes */
+    sref_fix(a); sref_fix(b); sref_fix(t);
+}
+static void swap_sref_priv(void *a, void *b, void *t, size_t len)
+{
+    swap_priv(a, b, t, len);
+    sref_fix(a); sref_fix(b);
+}
+
+static void sref_check_elem(const struct bench *b, size_t i, uint32_t tag, const uint32_t *keys, const unsigned char *ext,
+                            const char *op)
+{
+    const unsigned char *e = b->arr + i * (size_t)SL->size, *p;
+    uint64_t f = 0;
+    uint32_t k = keys[tag];
+    X.op = op;
+    memcpy(&p, e + SL->kp, sizeof(p));
+    if (SL->fill >= 0) memcpy(&f, e + SL->fill, 8);
+    if (e[SL->ext] != ext[tag] || e[SL->buf + 2] != (unsigned char)(tag * 13u + 7u)
+        || (SL->fill >= 0 && f != vrt_mix(0x5EF, tag))
+        || (ext[tag] ? (e[SL->buf] != 0xdd || e[SL->buf + 1] != 0xdd) : (e[SL->buf] != (unsigned char)k || e[SL->buf + 1] != (unsigned char)(k >> 8))))
+        vrt_fail(Kop("not-permutation.foreign-record"), "n=%zu: the payload of element %zu (tag %u) is not that of input element %u",
+                 b->n, i, tag, tag);
+    if (p != (ext[tag] ? extkeys + 2 * (size_t)tag : e + SL->buf))
+        vrt_fail(Kop("element-not-valid-in-place"), "n=%zu: the key pointer of element %zu (tag %u) does not address its own %s: "
+                 "the element was moved without the caller's swap function", b->n, i, tag, ext[tag] ? "table slot" : "buffer");
+}
+
+/* one array of self-referential elements through find, sort, search + find, reverse */
+static void sref_run(struct bench *b, int selidx, const uint32_t *keys, const unsigned char *ext, uint32_t *skeys,
+                     uint64_t code, int locflags)
+{
+    const size_t n = b->n, size = (size_t)SL->size, bytes = n * size;
+    const uint64_t h = vrt_mix(vrt_mix(0x5EF0, code), (uint64_t)selidx * 64 + n);
+    const int nulltmp = b->path == P_ARRAY && h % 3 == 0;
+    size_t i;
+    int s;
+
+    for (i = 0; i < n; i++) {
+        sref_put(b->arr + i * size, keys[i], (uint32_t)i, ext[i], i);
+        if (ext[i]) VRT_COUNT("selfref.elements.external-key"); else VRT_COUNT("selfref.elements.inline-key");
+    }
+    if (b->scratch) memset(b->scratch, 0xee, size);
+    if (b->path == P_VECTOR && b->arr) memset(b->arr + bytes, 0xc7, (b->cap - n) * size);
+    if (n >= 2) {
+        uint64_t g = vrt_mix(vrt_mix(0x5EF1, (uint64_t)selidx * 4 + (uint64_t)(SL - SLAY)), n);
+        for (i = 0; i < n; i++) g = vrt_mix(g, (uint64_t)keys[i] * 2 + ext[i]);
+        vrt_sig(0, g);
+    }
+
+    /* ---- find on the unsorted input ---- */
+    b->refkeys = keys; b->refmirror = 0;
+    if (n > 0) {
+        probe_at(b, PL_SEPARATE, (size_t)((h >> 8) % n), 0, 0);
+        probe_at(b, PL_SEPARATE, (size_t)((h >> 20) % n), 1, 0);
+    }
+    located_probes(b, 0, locflags, code);
+
+    /* ---- sort ---- */
+    set_ctx(b, "sort", selname[selidx], NULL);
+    shadow_reset(b);
+    tape_pos = 0;
+    if (b->path == P_ARRAY && nulltmp) {
+        X.scratch = NULL;
+        VRT_OP3("array.sort", "(self-referential elements, private swap, tmp=NULL) algo=%ld n=%ld keys=0x%lx", selval[selidx], n, code);
+        cstl_raw_array_sort(b->arr, n, size, cmp_sref, &X, swap_sref_priv, NULL, (cstl_sort_algorithm_t)selval[selidx]);
+        VRT_COUNT("selfref.sort.null-scratch-with-private-swap");
+    } else if (b->path == P_ARRAY) {
+        VRT_OP3("array.sort", "(self-referential elements) algo=%ld n=%ld keys=0x%lx", selval[selidx], n, code);
+        cstl_raw_array_sort(b->arr, n, size, cmp_sref, &X, swap_sref, b->scratch, (cstl_sort_algorithm_t)selval[selidx]);
+        VRT_COUNT("selfref.sort.array-path");
+    } else {
+        VRT_OP3("vector.sort", "(self-referential elements) algo=%ld n=%ld keys=0x%lx", selval[selidx], n, code);
+        __cstl_vector_sort(&b->v, cmp_sref, &X, swap_sref, (cstl_sort_algorithm_t)selval[selidx]);
+        VRT_COUNT("selfref.sort.vector-path");
+        VRT_CHECK(cstl_vector_size(&b->v) == n && cstl_vector_data(&b->v) == (void *)b->arr && cstl_vector_capacity(&b->v) == b->cap,
+                  K("sort.vector-geometry-changed"), "sort changed the vector's base/size/capacity");
+    }
+    VRT_COUNT_N("selfref.cmp.calls", X.ncmp);
+    VRT_COUNT_N("selfref.swap.calls", X.nswap);
+    memset(b->seen, 0, n);
+    for (i = 0; i < n; i++) {
+        uint32_t t;
+        memcpy(&t, b->arr + i * size + SL->tag, 4);
+        if (t >= n) vrt_fail(K("sort.not-permutation.foreign-record"), "n=%zu: output element %zu carries tag %u", n, i, t);
+        if (b->seen[t]) vrt_fail(K("sort.not-permutation.duplicated"), "n=%zu: input element %u appears twice in the output", n, t);
+        b->seen[t] = 1;
+        if (X.perm[i] != t)
+            vrt_fail(K("sort.moved-without-swap"), "n=%zu: element %zu holds input element %u, the %llu observed swap calls put %ld there",
+                     n, i, t, (unsigned long long)X.nswap, X.perm[i] == SH_GARBAGE ? -1L : (long)X.perm[i]);
+        sref_check_elem(b, i, t, keys, ext, "sort");
+        skeys[i] = keys[t];
+        if (i > 0 && skeys[i - 1] > skeys[i])
+            vrt_fail(K("sort.unsorted"), "n=%zu: key %u at index %zu precedes key %u", n, skeys[i - 1], i - 1, skeys[i]);
+    }
+    check_slack(b, "sort");
+    VRT_COUNT("selfref.sort.verified");
+
+    /* ---- search + find on the sorted output ---- */
+    if (bytes) memcpy(b->save, b->arr, bytes);
+    b->refkeys = skeys;
+    for (s = 0; s < 2 && n > 0; s++) {
+        probe_at(b, PL_SEPARATE, (size_t)((h >> 30) % n), 0, s);
+        probe_at(b, PL_SEPARATE, (size_t)((h >> 40) % n), 1, s);
+    }
+    if (n == 0) {
+        /* nothing to take a key from: the probe is a fresh element */
+        sref_put(b->probe, 6, 0xffffffffu, 0, 0);
+        set_ctx(b, "search", "empty", b->probe);
+        VRT_CHECK(do_search_at(b, 0, b->probe, 6, 0, 0) == -1, K("search.false-positive"), "search in an empty array found something");
+        set_ctx(b, "find", "empty", b->probe);
+        VRT_CHECK(do_find_at(b, 0, b->probe, 6, 0, 0) == -1, K("find.false-positive"), "find in an empty array found something");
+    }
+    located_probes(b, 1, locflags, code);
+    VRT_CHECK(bytes == 0 || memcmp(b->arr, b->save, bytes) == 0, K("search.array-modified"), "search/find modified the array (n=%zu)", n);
+    VRT_COUNT("selfref.search.verified");
+
+    /* ---- reverse ---- */
+    set_ctx(b, "reverse", nclass(n), NULL);
+    shadow_reset(b);
+    if (b->path == P_ARRAY && nulltmp) {
+        X.scratch = NULL;
+        VRT_OP1("array.reverse", "(self-referential elements, private swap, tmp=NULL) n=%ld", n);
+        cstl_raw_array_reverse(b->arr, n, size, swap_sref_priv, NULL);
+    } else if (b->path == P_ARRAY) {
+        VRT_OP1("array.reverse", "(self-referential elements) n=%ld", n);
+        cstl_raw_array_reverse(b->arr, n, size, swap_sref, b->scratch);
+    } else {
+        VRT_OP1("vector.reverse", "(self-referential elements) n=%ld", n);
+        __cstl_vector_reverse(&b->v, swap_sref);
+    }
+    for (i = 0; i < n; i++) {
+        uint32_t t, was;
+        memcpy(&t, b->arr + i * size + SL->tag, 4);
+        memcpy(&was, b->save + (n - 1 - i) * size + SL->tag, 4);
+        if (t != was) vrt_fail(K("reverse.not-mirror"), "n=%zu: element %zu after reverse is not the former element %zu", n, i, n - 1 - i);
+        if (X.perm[i] != n - 1 - i) vrt_fail(K("reverse.moved-without-swap"), "n=%zu: element %zu was not put there by the observed swap calls", n, i);
+        sref_check_elem(b, i, t, keys, ext, "reverse");
+    }
+    check_slack(b, "reverse");
+    if (n > 0) {
+        b->refmirror = 1;
+        probe_at(b, PL_ELEM, (size_t)((h >> 50) % n), 0, 0);
+        b->refmirror = 0;
+    }
+    VRT_COUNT("selfref.reverse.verified");
+}
+
+/* ------------------------------------------------------------------ */
 /* case table                                                           */
 /* ------------------------------------------------------------------ */
-enum { C_LARGE, C_EXH, C_TAPE, C_RANDOM, C_SWEEP, C_DEEP };
+enum { C_LARGE, C_EXH, C_TAPE, C_RANDOM, C_SWEEP, C_DEEP, C_SREF };
 enum { PAT_SORTED, PAT_REVERSED, PAT_CONSTANT, PAT_TWO_RANDOM, PAT_TWO_ALT, PAT_ORGAN, PAT_VALLEY,
        PAT_SAWTOOTH, PAT_ROT1, PAT_RANDOM_TIES,
        /* nearly sorted with local disorder: every partitioning splits evenly (deepest balanced recursion) and the
@@ -740,6 +1120,16 @@ static void build_cases(void)
             add_case(c);
         }
     }
+    /* self-referential elements: selector x layout (A) x path */
+    {
+        static const int ssel[] = { S_QUICK, S_QUICK_R, S_QUICK_M, S_HEAP, S_DEFAULT, S_OOR99 };
+        int a, l;
+        for (a = 0; a < 6; a++) for (l = 0; l < 2; l++) for (p = 0; p < 2; p++) {
+            memset(&c, 0, sizeof(c));
+            c.kind = C_SREF; c.sel = ssel[a]; c.A = l; c.path = p;
+            add_case(c);
+        }
+    }
     /* selector sweep: 16 selector values per case */
     for (n = 0; n < (NSWEEP + 15) / 16; n++) {
         memset(&c, 0, sizeof(c));
@@ -788,8 +1178,8 @@ static void run_exh(const struct cdef *c, uint64_t idx)
             tape_n = 0;
             if (c->sel == S_QUICK_R) vrt_rng_seed(&rand_rng, vrt_seed, vrt_mix(idx, x));
             X.style = (int)((x ^ (x >> 3)) & 1);
-            if (full) run_array(&b, c->sel, pr, np, F_PREFIND | F_SEARCH | F_REVERSE | F_SIG, code, 0);
-            else run_array(&b, c->sel, pr + (x % (np - 1)), 2, F_SEARCH | F_SIG, code, 0);
+            if (full) run_array(&b, c->sel, pr, np, F_PREFIND | F_SEARCH | F_REVERSE | F_SIG | (n <= 6 ? F_LOC_EVERY : F_LOC_FEW), code, 0);
+            else run_array(&b, c->sel, pr + (x % (np - 1)), 2, F_SEARCH | F_SIG | F_LOC_ONE, code, 0);
             vrt_ctr[size_ctr[c->sizeidx]]++;
         }
         if (c->path == P_ARRAY) VRT_COUNT_N("arrays.exhaustive.array-path", total);
@@ -934,7 +1324,7 @@ static void run_large(const struct cdef *c, uint64_t idx)
     static const size_t small_n[] = { 0, 1, 2, 3, 4, 5, 9, 16, 17, 31, 32, 33, 64, 100, 127, 128, 255, 256, 257, 511, 1000 };
     vrt_rng g;
     size_t i, nbig;
-    const int ALLF = F_PREFIND | F_SEARCH | F_REVERSE | F_SIG;
+    const int ALLF = F_PREFIND | F_SEARCH | F_REVERSE | F_SIG | F_LOC_LARGE;
     int big, quadratic = c->sel != S_QUICK_R && c->sel != S_HEAP
                     && c->pat != PAT_CONSTANT && c->pat != PAT_RANDOM_TIES && c->pat != PAT_TWO_RANDOM && c->pat != PAT_TWO_ALT;
     vrt_rng_seed(&g, vrt_seed, 0xC11A000 + idx);
@@ -942,7 +1332,7 @@ static void run_large(const struct cdef *c, uint64_t idx)
         /* arrays of 2^19 .. 2^21 records: recursion/iteration depth, pending-work tables, counters past 2^16 .. 2^20 */
         const size_t n = (vrt_thorough ? ((size_t)1 << 21) : ((size_t)3 << 18)) + 37 + vrt_below(&g, 5);
         vrt_case_note("deep pattern=%s sel=%s(%ld) size=%d path=%s n=%zu", patname[c->pat], selname[c->sel], selval[c->sel], SIZES[c->sizeidx], pathname[c->path], n);
-        run_large_n(c, idx, n, &g, F_SEARCH | F_SIG);
+        run_large_n(c, idx, n, &g, F_SEARCH | F_SIG | F_LOC_LARGE);
         VRT_COUNT("arrays.deep");
         return;
     }
@@ -1003,7 +1393,7 @@ static void run_random(const struct cdef *c, uint64_t idx)
             tape[i] = vrt_chance(&g, 1, 3) ? (int)n - 1 : vrt_chance(&g, 1, 2) ? (int)vrt_below(&g, (uint32_t)n + 1) : vrt_chance(&g, 1, 4) ? 2147483647 - (int)vrt_below(&g, 2) : (int)(vrt_next(&g) >> 33);
         vrt_rng_seed(&rand_rng, vrt_seed, vrt_mix(idx, r));
         X.style = (int)vrt_below(&g, 2);
-        run_array(&b, sel, pr, np, F_PREFIND | F_SEARCH | F_REVERSE | F_SIG, 0xA000 + A, tape_n);
+        run_array(&b, sel, pr, np, F_PREFIND | F_SEARCH | F_REVERSE | F_SIG | F_LOC_LARGE, 0xA000 + A, tape_n);
         vrt_free(keys);
         bench_close(&b);
         vrt_ctr[size_ctr[z]]++;
@@ -1041,7 +1431,7 @@ static void run_sweep(const struct cdef *c, uint64_t idx)
             tape_n = 0;
             vrt_rng_seed(&rand_rng, vrt_seed, vrt_mix(idx, v * 16 + (uint32_t)k));
             X.style = (int)(v & 1);
-            run_array(&b, S_SWEPT, pr, np, F_SEARCH | F_SIG, 0xB000 + A, (uint64_t)(selval[S_SWEPT] & 0xffff));
+            run_array(&b, S_SWEPT, pr, np, F_SEARCH | F_SIG | F_LOC_LARGE, 0xB000 + A, (uint64_t)(selval[S_SWEPT] & 0xffff));
             vrt_free(keys);
             bench_close(&b);
             vrt_ctr[size_ctr[z]]++;
@@ -1054,6 +1444,76 @@ static void run_sweep(const struct cdef *c, uint64_t idx)
 }
 
 /* ------------------------------------------------------------------ */
+/* self-referential elements                                            */
+/* ------------------------------------------------------------------ */
+static void run_sref(const struct cdef *c, uint64_t idx)
+{
+    static const size_t PN[] = { 16, 33, 100, 257, 1000 };
+    const int nexh3 = vrt_thorough ? 8 : 6, nexh2 = vrt_thorough ? 12 : 9;
+    uint32_t *keys, *skeys;
+    unsigned char *ext;
+    struct bench b;
+    vrt_rng g;
+    int n, i, pat, k;
+
+    vrt_rng_seed(&g, vrt_seed, 0xC11D000 + idx);
+    vrt_case_note("self-referential small-buffer elements: layout %d (%d bytes, key pointer at offset %d) sel=%s(%ld) path=%s",
+                  c->A, SLAY[c->A].size, SLAY[c->A].kp, selname[c->sel], selval[c->sel], pathname[c->path]);
+    sref_mode = 1; SL = &SLAY[c->A]; cur_cmp = cmp_sref; cur_put = sref_put_probe; cur_fix = sref_fix;
+    keys = vrt_alloc(1004 * sizeof(*keys)); skeys = vrt_alloc(1004 * sizeof(*skeys)); ext = vrt_alloc(1004);
+    /* every array over 3 keys up to length 6 (thorough 8), over 2 keys up to 9 (12): every index as the probe */
+    for (n = 0; n <= nexh2; n++) {
+        const int A = n <= nexh3 ? 3 : 2;
+        uint64_t total = 1, x;
+        for (i = 0; i < n; i++) total *= A;
+        bench_open(&b, n, SL->size, c->path, capextra_for(n, c->sel));
+        extkeys_n = (size_t)n + 2; extkeys = vrt_alloc(2 * extkeys_n);
+        for (x = 0; x < total; x++) {
+            uint64_t y = x;
+            for (i = 0; i < n; i++) { keys[i] = 2 * (uint32_t)(y % A) + 2; y /= A; ext[i] = vrt_mix(x * 16 + i, n) % 4 == 0; }
+            tape_n = n > 0 ? 1 : 0; tape[0] = (int)(vrt_mix(x, 0x7A9E) % (n > 0 ? n : 1));
+            vrt_rng_seed(&rand_rng, vrt_seed, vrt_mix(idx, x * 16 + n));
+            X.style = (int)((x ^ (x >> 2)) & 1);
+            sref_run(&b, c->sel, keys, ext, skeys, x, n <= 7 ? F_LOC_EVERY : F_LOC_FEW);
+            VRT_COUNT("selfref.arrays.exhaustive");
+        }
+        vrt_free(extkeys); extkeys = NULL;
+        bench_close(&b);
+    }
+    /* patterns */
+    for (k = 0; k < (int)(sizeof(PN) / sizeof(PN[0])); k++) for (pat = 0; pat < 7; pat++) {
+        const size_t m = PN[k] + vrt_below(&g, 3);
+        size_t j;
+        bench_open(&b, m, SL->size, c->path, (size_t)(pat % 3));
+        extkeys_n = m + 2; extkeys = vrt_alloc(2 * extkeys_n);
+        for (j = 0; j < m; j++) {
+            uint32_t v;
+            switch (pat) {
+            case 0: v = (uint32_t)j / 2; break;                                     /* sorted, pairs */
+            case 1: v = (uint32_t)(m - 1 - j) / 2; break;                           /* reversed */
+            case 2: v = 7; break;                                                   /* constant */
+            case 3: v = (uint32_t)(j & 1); break;                                   /* two-valued alternating */
+            case 4: v = (uint32_t)(j < m / 2 ? j : m - 1 - j); break;               /* organ pipe */
+            case 5: v = vrt_below(&g, 5); break;                                    /* many ties */
+            default: v = vrt_below(&g, 4 * (uint32_t)m); break;                     /* mostly distinct */
+            }
+            keys[j] = 2 * v + 2;
+            ext[j] = vrt_below(&g, 4) == 0;
+        }
+        tape_n = (int)vrt_below(&g, 3);
+        for (i = 0; i < tape_n; i++) tape[i] = vrt_chance(&g, 1, 2) ? (int)m - 1 : (int)vrt_below(&g, (uint32_t)m);
+        vrt_rng_seed(&rand_rng, vrt_seed, vrt_mix(idx, 0x9000 + k * 8 + pat));
+        X.style = (int)vrt_below(&g, 2);
+        sref_run(&b, c->sel, keys, ext, skeys, 0x5000 + (uint64_t)pat, F_LOC_LARGE);
+        VRT_COUNT("selfref.arrays.patterns");
+        vrt_free(extkeys); extkeys = NULL;
+        bench_close(&b);
+    }
+    vrt_free(keys); vrt_free(skeys); vrt_free(ext);
+    sref_mode = 0; cur_cmp = cmp_rec; cur_put = put_rec; cur_fix = NULL;
+}
+
+/* ------------------------------------------------------------------ */
 static uint64_t ncases(void)
 {
     build_cases();
@@ -1063,11 +1523,13 @@ static void run_case(uint64_t idx)
 {
     const struct cdef *c = &cases[idx];
     uint64_t t0 = draws_tape, p0 = draws_prng;
+    sref_mode = 0; cur_cmp = cmp_rec; cur_put = put_rec; cur_fix = NULL;     /* a failed case leaves through longjmp */
     switch (c->kind) {
     case C_LARGE: case C_DEEP: run_large(c, idx); break;
     case C_EXH:    run_exh(c, idx); break;
     case C_TAPE:   run_tape(c, idx); break;
     case C_SWEEP:  run_sweep(c, idx); break;
+    case C_SREF:   run_sref(c, idx); break;
     default:       run_random(c, idx); break;
     }
     VRT_COUNT_N("rand.draws.from-tape", draws_tape - t0);
@@ -1082,6 +1544,16 @@ static void winit(void)
     for (i = 0; i < NSEL; i++) { snprintf(nm, sizeof(nm), "sort.selector.%s", selname[i]); sel_ctr[i] = vrt_counter_id(nm); }
     for (i = 0; i < NSIZES; i++) { snprintf(nm, sizeof(nm), "arrays.element-size.%02d", SIZES[i]); size_ctr[i] = vrt_counter_id(nm); }
     for (i = 0; i < NPAT; i++) { snprintf(nm, sizeof(nm), "arrays.large.%s", patname[i]); pat_ctr[i] = vrt_counter_id(nm); }
+    for (i = 0; i < NPL; i++) {
+        int s;
+        for (s = 0; s < 2; s++) {
+            snprintf(nm, sizeof(nm), "%s.%s", s ? "search" : "find", plname[i]); pl_ctr[i][s] = vrt_counter_id(nm);
+            snprintf(nm, sizeof(nm), "%s.%s.absent", s ? "search" : "find", plname[i]); pl_absent_ctr[i][s] = vrt_counter_id(nm);
+        }
+    }
+    pl_lower_ctr = vrt_counter_id("find.probe-in-array.first-match-at-lower-index");
+    pl_other_ctr = vrt_counter_id("search.probe-in-array.answer-is-another-index");
+    pl_sref_ctr = vrt_counter_id("selfref.probes");
     vrt_rng_seed(&rand_rng, 0xC11, 0);
     X.path = "array"; X.state = "none"; X.op = "none";
 }
@@ -1104,6 +1576,14 @@ static const char *const required[] = {
     "sort.verified", "sort.count-0", "sort.count-1", "cmp.calls.sort", "swap.calls.sort",
     "search.present", "search.absent", "search.absent.below", "search.absent.between", "search.absent.above",
     "search.absent.empty-array", "find.present", "find.present.first-of-several", "find.absent", "find.on-descending",
+    "find.probe-in-array", "search.probe-in-array", "find.probe-in-array.first-match-at-lower-index",
+    "search.probe-in-array.answer-is-another-index", "find.on-descending.probe-in-array",
+    "find.probe-in-equal-array", "search.probe-in-equal-array", "find.probe-in-scratch", "search.probe-in-scratch",
+    "find.probe-in-scratch.absent", "search.probe-in-scratch.absent",
+    "find.probe-one-past-end", "search.probe-one-past-end", "find.probe-one-past-end.absent", "search.probe-one-past-end.absent",
+    "selfref.sort.verified", "selfref.sort.array-path", "selfref.sort.vector-path", "selfref.sort.null-scratch-with-private-swap",
+    "selfref.elements.inline-key", "selfref.elements.external-key", "selfref.cmp.calls", "selfref.swap.calls",
+    "selfref.search.verified", "selfref.reverse.verified", "selfref.probes", "selfref.arrays.exhaustive", "selfref.arrays.patterns",
     "reverse.verified", "reverse.count-0", "reverse.count-1", "reverse.count-odd", "reverse.count-even",
     NULL
 };
